@@ -8,6 +8,7 @@ inner patterns: all 2^(len-2) for short bursts, three structured ones above) mus
 checksum error before any chunk object is constructed.
 """
 import itertools
+import signal
 
 import aiortc.rtcsctptransport as S
 from vt.enumcheck import Tally, pmap, result
@@ -327,12 +328,24 @@ def bursts(task):
     _Spy.hits = 0
     parse = S.parse_packet
     n = 0
+
+    class Hang(BaseException):
+        pass
+
+    def on_alarm(signum, frame):
+        raise Hang()
+    # CPU-time timer: immune to the worker being descheduled; one (start, length) batch normally takes < 0.1 s
+    signal.signal(signal.SIGVTALRM, on_alarm)
     try:
         for length in range(1, 33):
             pats = inner_patterns(length, full_upto)
             for start in range(lo, min(hi, nbits - length + 1)):
                 shift = nbits - start - length
-                for m in pats:
+                # data-dependent bursts: the window forced to all zeros / all ones
+                window = (value >> shift) & ((1 << length) - 1)
+                extra = [x for x in (window, window ^ ((1 << length) - 1)) if x]
+                signal.setitimer(signal.ITIMER_VIRTUAL, 3.0)
+                for m in (pats + extra if extra else pats):
                     n += 1
                     bad = (value ^ (m << shift)).to_bytes(len(data), "big")
                     try:
@@ -349,7 +362,12 @@ def bursts(task):
                     T.violation("checksum/%s" % cls, "checksum/burst-not-rejected",
                                 "%s packet, burst start bit %d length %d mask %x: %s" % (cls, start, length, m, verdict),
                                 dict(kind="burst", cls=cls, data=data_hex, start=start, length=length, mask=m))
+    except Hang:
+        T.violation("checksum-hang/%s" % cls, "checksum/corrupted-packet-hangs-parser",
+                    "%s packet, a burst at start bit %d length %d: parse_packet used more than 3 s of CPU" % (cls, start, length),
+                    dict(kind="burst", cls=cls, data=data_hex, start=start, length=length, mask=m))
     finally:
+        signal.setitimer(signal.ITIMER_VIRTUAL, 0)
         S.CHUNK_TYPES.update(saved)
     # a burst is identified by (start, length, inner pattern) with both end bits flipped: masks are
     # pairwise different by construction
@@ -388,7 +406,7 @@ def run(tier, seed):
              "parameter classes with 0-5 streams) built as real chunk objects -> serialize_packet -> parse_packet -> field "
              "equality -> re-serialise byte-identical; distinct = distinct serialised packets. B: for one packet per chunk type "
              "(15), every burst: all start bits x lengths 1..32 x inner patterns (all 2^(len-2) for len <= %d, solid/ends/"
-             "alternating above) must raise the checksum ValueError with no chunk object constructed (CHUNK_TYPES spied); "
+             "alternating above, plus the window forced to all-zeros and to all-ones) must raise the checksum ValueError with no chunk object constructed (CHUNK_TYPES spied); "
              "distinct by construction (start,len,pattern)" % full_upto,
         assumptions=["CRC-32c arithmetic itself (google_crc32c) is trusted; what is checked is that it is computed over the "
                      "right bytes and compared before chunk processing",
